@@ -96,6 +96,7 @@ static std::string Unhex(const std::string& h) {
 
 int main(int argc, char** argv) {
   std::vector<std::string> reads, outs, says, says_err, dd_for;
+  std::string say_big;
   std::string key, depfile, rsp, wait_for, announce, fail_if_exists, pidfile;
   bool follow = false, msvc = false, restat = false, early = false, atomic = false, nocmd = false, dd = false;
   int exit_code = 0, sleep_before = 0, sleep_after = 0, chunk_delay = 0, kill_self = 0;
@@ -128,6 +129,7 @@ int main(int argc, char** argv) {
     else if (a == "--pidfile") { pidfile = next(); cur = nullptr; }
     else if (a == "--say-hex") { says.push_back(Unhex(next())); cur = nullptr; }
     else if (a == "--say-err-hex") { says_err.push_back(Unhex(next())); cur = nullptr; }
+    else if (a == "--say-big") { say_big = next(); cur = nullptr; }     // TAG:NLINES, one write() right before the end
     else if (a == "--say") { says.push_back(Unescape(next())); cur = nullptr; }
     else if (a == "--say-err") { says_err.push_back(Unescape(next())); cur = nullptr; }
     else if (a == "--dyndep-for") { cur = &dd_for; }
@@ -173,6 +175,16 @@ int main(int argc, char** argv) {
     if (k < says.size()) { ssize_t r = write(1, says[k].data(), says[k].size()); (void)r; }
     if (k < says_err.size()) { ssize_t r = write(2, says_err[k].data(), says_err[k].size()); (void)r; }
     MsSleep(chunk_delay);
+  }
+  if (!say_big.empty()) {
+    // a burst larger than one pipe read, written in one go just before the process ends
+    size_t c = say_big.find(':');
+    std::string tag = say_big.substr(0, c), burst;
+    long nl = atol(say_big.substr(c + 1).c_str());
+    char line[96];
+    for (long i = 0; i < nl; ++i) { snprintf(line, sizeof line, "<<%s:B%06ld>>\n", tag.c_str(), i); burst += line; }
+    size_t off = 0;
+    while (off < burst.size()) { ssize_t r = write(1, burst.data() + off, burst.size() - off); if (r <= 0) break; off += r; }
   }
   if (kill_self) { Log("K"); kill(getpid(), kill_self); pause(); }
   int status = exit_code;
